@@ -917,7 +917,7 @@ class TypeSystem:
         Returns:
             The newly created type
         """
-        if self.contains_type(name, True) and not is_predefined(name):
+        if self.contains_type(name, True):
             raise ValueError(f"Type with name [{name}] already exists!")
 
         supertype = self.get_type(supertypeName)
